@@ -62,7 +62,7 @@ Record case := {
   c_frags : list (pystr * pystr * (list (Z * attrs) * list (Z * Z * attrs)));
                                         (* fragment name, fragment text, the graph read_fragments built for it
                                            (nodes with element / chiral / ez_isomer_class / bonding, edges with order) *)
-  c_str : option pystr;                 (* the whole CGsmiles string, for hydrogen-free inputs only (EzStrings.resolve_string) *)
+  c_str : option pystr;                 (* the whole CGsmiles string (EzStrings.resolve_string); None for raw-graph cases *)
   c_side : list (Z * Z * bool);         (* marked (ligand id, anchor id): the ligand is on the upper side of the double bond's
                                            axis (the generator's ground truth; cis = same side) *)
   c_simtok : list (pystr * list (Z * pystr))
@@ -86,7 +86,8 @@ Definition frag_ok (f : pystr * pystr * (list (Z * attrs) * list (Z * Z * attrs)
   | Err _ => false
   end.
 Definition before_keys : list pystr := [S "element"; S "fragid"; S "chiral"; S "ez_isomer_class"; S "ez_isomer"].
-(** the whole model from the CGsmiles string reaches the molecule the annotation step received and the one returned *)
+(** the whole model from the CGsmiles string reaches the molecule the annotation step received and the one returned
+    (on the keys element, fragid, chiral, ez_isomer_class, ez_isomer and the bond orders; `hcount` is not compared, see EzStrings) *)
 Definition string_ok (c : case) : bool :=
   match c_str c with
   | None => true
@@ -95,7 +96,7 @@ Definition string_ok (c : case) : bool :=
       | Ok fo, Some b, Some r =>
           graph_ez_eqb (restrict_graph before_keys [S "order"] (fo_m5 fo)) b
           && graph_ez_eqb (restrict_graph before_keys [S "order"] (fo_mol fo)) r
-      | Err _, Some _, None => true
+      | Err _, _, None => true
       | _, _, _ => false
       end
   end.
